@@ -995,6 +995,32 @@ def shape_checks(ld, r, tier):
                         a, c = obs(lambda: iter(seq())), obs(lambda: iter(par()))
                         if a != c and not (a[0] == 'err' and c[0] == 'err'):
                             fails.append(f'backend {be} num_workers={w} buffer_size={b}: {name} over a {shape} input (n={n}, function table {table}): parallel {c} vs sequential {a}')
+    # a backend stays usable after an iteration over it was stopped early (break / close / dropped iterator), then and later
+    with warnings.catch_warnings():
+        warnings.simplefilter('ignore')
+        for be in (['t', 'mp', 'dill_mp'] if quick else ['t', 'mp', 'dill_mp', 'multiprocessing', 'concurrent_mp']):
+            n = 6
+            src = ld.new({f'k{i:02d}': i for i in range(n)})
+            fn = BFn({})
+            seq = [x + 1 for x in range(n)]
+            for how in ('close', 'drop', 'parmap_close'):
+                runs += 1
+                try:
+                    mk = (lambda: src.map(fn, num_workers=2, buffer_size=2, backend=be)) if how == 'parmap_close' else (lambda: src.map(fn).prefetch(2, 2, backend=be))
+                    itr = iter(mk())
+                    next(itr)
+                    if how == 'drop':
+                        del itr
+                        common.tick()
+                    else:
+                        itr.close()
+                    again = [list(mk()), list(mk())]
+                except BaseException as e:  # noqa
+                    if isinstance(e, (KeyboardInterrupt, SystemExit)):
+                        raise
+                    again = f'raised {type(e).__name__}: {e}'
+                if again != [seq, seq]:
+                    fails.append(f'backend {be}: after an iteration was stopped early ({how}) the next iterations over the same backend give {again} instead of twice {seq}')
     return fails, runs
 
 
